@@ -38,7 +38,10 @@ EXHAUSTIVE = {"quick": True, "thorough": True}
 SAMPLE_EVERY = {"quick": 9000, "thorough": 300000}
 
 # ("updated", "A") supplies TWO instances of A in one call (the last one wins)
-BLOCKS = [("sscope", "A"), ("updated", "A"), ("ascope", "A"), ("updated", "R"), ("prepared", "R")]
+BLOCKS = [("sscope", "A"), ("updated", "A"), ("ascope", "A"), ("updated", "R"), ("prepared", "R"), None,
+          # ops 6 / 7 (family "equal" only): updates whose states are VALUE-EQUAL across tasks and
+          # uses (fresh instances with the same field values): [A, R] together, and [A] alone
+          ("updated", "AR="), ("updated", "A=")]
 # op 5 = "use the shared prepared update": `with prepared_update: probe` in one step (no suspension
 # inside, so uses never overlap); the object was built by the root at its start and may be used by
 # every task, any number of times - each use must sit on top of the *user's* current state
@@ -47,20 +50,20 @@ BLOCKS = [("sscope", "A"), ("updated", "A"), ("ascope", "A"), ("updated", "R"), 
 # entered in another must still sit on top of the state of the task that enters it
 
 
-def scripts(L: int, with_prepared: bool = False):
+def scripts(L: int, with_prepared: bool = False, allowed: tuple | None = None):
     """well-nested op sequences of length <= L; op = block index (enter) or -1 (exit)"""
     out = [[]]
 
     def go(prefix, depth):
         if len(prefix) == L:
             return
-        for b in range(len(BLOCKS)):
+        for b in (allowed if allowed is not None else range(5)):
             if b == 4 and (not with_prepared or 4 in prefix):
                 continue
             s = [*prefix, b]
             out.append(s)
             go(s, depth + 1)
-        if prefix.count(5) < 1:
+        if prefix.count(5) < 1 and allowed is None:
             s = [*prefix, 5]
             out.append(s)
             go(s, depth)
@@ -88,6 +91,20 @@ def programs(tier: str):
             for pos in range(len(root) + 1):
                 for how in ("spawn", "create"):
                     yield {"scripts": [root, child], "starts": [[0, pos, how]]}
+    # family "equal": two / three tasks deriving value-equal updates from one shared scope state
+    eq = scripts(2, allowed=(0, 6, 7))
+    for root in eq:
+        for child in eq:
+            if not any(op in (6, 7) for op in root + child):
+                continue
+            for pos in range(len(root) + 1):
+                for how in ("spawn", "create"):
+                    yield {"scripts": [root, child], "starts": [[0, pos, how]]}
+    eq1 = scripts(1, allowed=(6, 7))
+    for c1 in eq1:
+        for c2 in eq1:
+            if c1 and c2:
+                yield {"scripts": [[0], c1, c2], "starts": [[0, 1, "spawn"], [0, 1, "create"]]}
     s3 = scripts(1)
     s3p = scripts(1, with_prepared=True)
     if b["three_tasks_L"] >= 2:
@@ -204,7 +221,12 @@ def execute(program, ch: Chooser) -> Result:  # noqa: C901, PLR0915
                 kind, sup = BLOCKS[op]
                 label = f"t{tid}b{next(counter)}"
                 # the update block supplies two instances of its type in one call (the last wins)
-                states = make_states([sup, sup] if (kind, sup) == ("updated", "A") else [sup], label)
+                if sup in ("AR=", "A="):
+                    from hv.ctxkit import A as _A, R as _R
+
+                    states = [_A(tag="fixed")] + ([_R(x=1, tag="fixed")] if sup == "AR=" else [])
+                else:
+                    states = make_states([sup, sup] if (kind, sup) == ("updated", "A") else [sup], label)
                 keep.extend(states)
                 for st_ in states:
                     supplied[id(st_)] = st_.tag
@@ -222,7 +244,7 @@ def execute(program, ch: Chooser) -> Result:  # noqa: C901, PLR0915
                     cm = ctx.updated(*states)
                     cm.__enter__()
                 open_cms.append((kind, cm, in_scope, soft))
-                env.append({sup: states[-1].tag})
+                env.append({"A": "fixed", "R": "fixed"} if sup == "AR=" else ({"A": "fixed"} if sup == "A=" else {sup: states[-1].tag}))
                 if kind == "updated":
                     soft = soft or not in_scope
                 else:
